@@ -16,12 +16,14 @@ from gen import c09_stats as tr_stats
 from gen import c14_revision as tr_rev
 from gen import c07_pointid as tr_pid
 from gen import c07_pointid_init as tr_pid_init
+from gen import c10_ysign as tr_ysign
+from gen import c05_xnorth as tr_xnorth
 
 ID = "C07"
 PROPS_FILES = ["Gama/Props/C07.lean", "Gama/Props/C07Compose.lean", "Gama/Props/C07Revision.lean",
-               "Gama/Props/C07ProjectEquations.lean", "Gama/Props/C07PointIdInit.lean"]
+               "Gama/Props/C07ProjectEquations.lean", "Gama/Props/C07PointIdInit.lean", "Gama/Props/C07Mirror.lean"]
 LEAN_TARGETS = ["Gama.Props.C07", "Gama.Props.C07Compose", "Gama.Props.C07Revision", "Gama.Props.C07ProjectEquations",
-                "Gama.Props.C07PointIdInit"]
+                "Gama.Props.C07PointIdInit", "Gama.Props.C07Mirror"]
 DRIVERS = ["drv_input"]
 RULE = ("(a) input stream: PointID pairs from a pool of ASCII / digit / leading-zero / white-space / UTF-8 / long "
         "identifiers and random byte strings (distinct by the pair of byte strings, non-trivial = the two normalised "
@@ -70,7 +72,14 @@ LEVEL_TEXT = ("proof for the linearised problem, exploration beyond it: Lean 4 t
               "this check as well: the whole revision and the active view commute with exchanging the ends of distances, slope "
               "distances, height and coordinate differences); the degrees clause is proved "
               "on the shared model of deg2gon (Gama.Angles.deg2gon, every accepted string) and the 1/0.324 rescaling is "
-              "proved exact. NOT proved: the iteration to convergence, the approximate-orientation median (C06), number "
+              "proved exact; round 9: the mirror clause is stated on the pass project_equations() itself executes (two runs of "
+              "Lin.passFrom over the regenerated linearisation on a network and its mirrored description: same numbering, A' = D_s A D_t, "
+              "b' = D_s b, solution carried over; for the outputs of PE.projectEquations under the hypothesis that both calls end with the "
+              "same statuses, _partial), the weights D_s P D_s are derived cluster by cluster from the regenerated covariance loop of "
+              "change_y_signs_for_inconsistent_system_ (Gen/YSign.lean, C10's translator; the hand model of the input stream is proved "
+              "equal to it), xNorthAngle() of the mirrored system from the regenerated table, renaming lifted to the whole pass "
+              "(identical rows and solution), the y_sign of the adjustment XML for y and orientations, and a negative witness for "
+              "cov-mat / alpha (C07-F3). NOT proved: the iteration to convergence, the approximate-orientation median (C06), number "
               "parsing/printing; these are explored by the metamorphic search on gama-local only.")
 LEVEL_NOTE = ("The theorems are about exact real arithmetic and about one linearisation; equality of two complete "
               "gama-local runs is explored with tolerances: coordinates 1e-6 m, linear residuals 2e-3 mm, angular "
@@ -91,6 +100,9 @@ TRUSTED = ["tools/gen/c07_meta.py: the re-expressions themselves (what counts as
            "tools/gen/c14_revision.py (translator of LocalRevision's requirement table, validated by C14's correspondence) and "
            "C14's model of the revision (Model/Revise.lean)",
            "Trig R instance of Lemmas/C07Cofactor.lean: atan2 y x = Complex.arg (x + y i) (same meaning as C09's)",
+           "tools/gen/c10_ysign.py, tools/gen/c05_xnorth.py (translators of the covariance sign condition and of xNorthAngle(), "
+           "validated by C10's / C05's correspondence); Model/Input.lean section Output (hand model of the y_sign lines of "
+           "localnetworkxml.cpp; no stream — the fields are compared end to end by the metamorphic search)",
            "Gama/Model/Angles.lean deg2gon (shared with C18, tied to gon2deg.cpp by C18's literal stream and by this check's "
            "dms / ang operations)"]
 MODELLED = ["iteration of the linearised adjustment to convergence (explored only)",
@@ -150,6 +162,22 @@ def translate(ctx):
         raise TieBroken("c14_revision translator", str(e))
     except (OSError, IndexError, ValueError, KeyError) as e:
         raise TieBroken("c14_revision translator", repr(e))
+    # round 9: Props/C07Mirror.lean is about the covariance loop of change_y_signs_for_inconsistent_system_ with the
+    # condition regenerated by C10's translator (Gen/YSign.lean) and about PointData::xNorthAngle() regenerated by C05's
+    # (Gen/XNorth.lean): both must be the current tree's
+    try:
+        text = tr_ysign.gen(ctx.repo)
+    except tr_ysign.YSignError as e:
+        raise TieBroken("c10_ysign translator", str(e))
+    except (OSError, IndexError, ValueError, KeyError) as e:
+        raise TieBroken("c10_ysign translator", repr(e))
+    f = ctx.lean / "Gama" / "Gen" / "YSign.lean"
+    if not f.exists() or f.read_text() != text:
+        f.write_text(text)
+    try:
+        tr_xnorth.translate(ctx.repo, ctx.lean)
+    except (OSError, IndexError, ValueError, KeyError, RuntimeError) as e:
+        raise TieBroken("c05_xnorth translator", repr(e))
 
 
 def build_harness(ctx):
